@@ -168,6 +168,29 @@ def r1(chk, prog):
             chk.check(bool(off_edges) and not missing, 'R1', f.name, 'a requested sort is carried out on every normal '
                       'path [%s]' % tag, f.loc(sorts[0]), 'a return is reachable with the sort flag set but without '
                       'sorting (the sort depends on something else than the flag)')
+            # ... of the elements that were stored: a fixed-size destination (C array, std::array) is filled from slot 0
+            # up to its fill counter, the slots behind it hold no value yet - the sort covers exactly [0, counter)
+            if ('[' in (f.cls or '').split('TypedArg<', 1)[-1] or 'std::array<' in (f.cls or '')) and \
+                    any((c.get('callee') or '').startswith('std::sort') for c in sorts):
+                counters = {field_name(children(x)[0]) for x in f.walk() if x.get('k') == 'UnaryOperator' and
+                            x.get('op') in ('++',) and field_name(children(x)[0])}
+                counters |= {field_name(children(x)[0]) for x in f.walk() if x.get('k') == 'CompoundAssignOperator'
+                             and x.get('op') == '+=' and field_name(children(x)[0])}
+                counters.discard(None)
+                for c in sorts:
+                    a = [x for x in call_args(c) if not x.get('defarg')]
+                    last_fields = {y['ref'].get('name') for y in walk(a[1]) if y.get('k') == 'MemberExpr'} if len(a) >= 2 else set()
+                    last_calls = {(y.get('callee') or '').split('::')[-1] for y in walk(a[1]) if y.get('k') in CALL_KINDS} \
+                        if len(a) >= 2 else set()
+                    first_calls = {(y.get('callee') or '').split('::')[-1] for y in walk(a[0]) if y.get('k') in CALL_KINDS} \
+                        if a else set()
+                    ok = len(a) >= 2 and bool(counters & last_fields) and not (last_calls & {'end', 'cend', 'size'}) and \
+                        not (first_calls & {'end', 'cend'}) and not any(
+                            y.get('k') in ('BinaryOperator', 'CXXOperatorCallExpr') and y.get('op') in ('+', '-')
+                            for y in walk(a[0]))
+                    chk.check(ok, 'R1', f.name, 'the sort of a fixed-size destination covers exactly the stored '
+                              'elements [0, fill counter) [%s]' % tag, f.loc(c), 'range end uses %s' % (
+                                  sorted(last_fields | last_calls) or 'nothing'))
         # (b') positional formatters are selected by the element's position in the DESTINATION (which is
         #      carried over between uses of the argument), never by the position inside the current value list
         for fm in fmts:
@@ -245,6 +268,15 @@ def membership_polarity(prog, f, depth=0):
                 return None
             names = [(x.get('callee') or '').split('::')[-1] for x in walk(kids[0]) if x.get('k') in CALL_KINDS]
             if any(nm in ('find', 'find_if', 'lower_bound') for nm in names) and op in ('!=', '=='):
+                # 'found' means: the result differs from the END marker of the searched range, and what is searched
+                # is the value the function was given
+                other = [(x.get('callee') or '').split('::')[-1] for x in walk(kids[1]) if x.get('k') in CALL_KINDS]
+                if any(nm in ('begin', 'cbegin', 'rbegin', 'crbegin') for nm in other):
+                    return False
+                pnames = {p_['name'] for p_ in f.params}
+                if pnames and not any(x.get('k') == 'DeclRefExpr' and x['ref'].get('sto') == 'param' and
+                                      x['ref'].get('name') in pnames for x in walk(kids[0])):
+                    return False
                 return op == '!='
             if any(nm in ('count', 'count_if') for nm in names):
                 zero = strip_all_casts(kids[1]).get('val') == 0 or kids[1].get('cv') == 0
